@@ -37,6 +37,7 @@ class StreamsDriver:
         self.slow = init["slow"]
         self.kind = init["kind"]
         self.gsp = init["gsp"]
+        self.hc = init["hc"]
         self.call_view = (0, 0, 0)
         self.hold = None
         self.puller = None
@@ -52,7 +53,12 @@ class StreamsDriver:
                     w.tasks["sp"] = ctx.spawn(w.run_task, "sp")   # lands in the stream's own task group
                 if drv.slow == i + 1:
                     drv.hold = w.loop.create_future()   # suspended before this item until the driver releases it
-                    await drv.hold
+                    try:
+                        await drv.hold
+                    except asyncio.CancelledError:
+                        if not drv.hc:
+                            raise
+                        # the body handles the cancellation that reached it and answers with the item anyway
                 if drv.nested and i == 1:
                     with ctx.scope("s3", interp.A(v=3)):
                         yield (i, w.lookup("A"), w.metrics_label(), w.group_id())
@@ -191,6 +197,7 @@ def gen_trace(rnd, max_items=8):
         init.update(n=0, nested=False, slow=0, ending="normal")
         n = 0
     init["gsp"] = init["kind"] == "agen" and n >= 1 and rnd.random() < 0.4
+    init["hc"] = init["slow"] > 0 and rnd.random() < 0.4
     d = StreamsDriver()
     d.reset(init)
     tr = [dict(ev="Init", init=init)]
@@ -213,7 +220,7 @@ def gen_trace(rnd, max_items=8):
             spawned = o["sp"]
             ops += 1
             k = o["res"][0]
-            sst = {"pending": "pulling", "item": "open", "stop": "ended" if sst in ("fresh", "open") else sst,
+            sst = {"pending": "pulling", "item": "open", "stop": "ended" if sst in ("fresh", "open", "pulling") else sst,
                    "err": "ended", "closed": "closed", "cancelled": "cancelled", "abandoned": sst}.get(k, "dead")
             tr.append(dict(ev=name, args=[], obs=dict(res=list(o["res"]), cons=list(o["cons"]), s1=o["s1"], call=list(o["call"]), sp=o["sp"])))
             if sst == "dead":
@@ -224,9 +231,9 @@ def gen_trace(rnd, max_items=8):
 
 
 TRACE_KW = dict(
-    variables=["place", "n", "ending", "nested", "slow", "kind", "gsp", "pos", "sst", "s1done", "called", "sp", "nops", "obs"],
+    variables=["place", "n", "ending", "nested", "slow", "kind", "gsp", "hc", "pos", "sst", "s1done", "called", "sp", "nops", "obs"],
     constants=dict(MaxItems=8, Bug='"none"'),
-    config_vars=["place", "n", "ending", "nested", "slow", "kind", "gsp"],
+    config_vars=["place", "n", "ending", "nested", "slow", "kind", "gsp", "hc"],
     actions=dict(Pull=0, Release=0, EndSpawned=0, CancelPull=0, Close=0, Abandon=0),
     invariants=["ItemsInOrder", "GenSeesCreation", "CallSeesStreamScope", "ConsumerIntact", "StreamScopeCompletes",
                 "SpawnedSettled"])
@@ -261,7 +268,7 @@ def replay(rep, record):
     from harness.graph import parse_label
     d = StreamsDriver()
     d.reset(record["init"])
-    print("  scenario:", {k: record["init"][k] for k in ("place", "n", "ending", "nested", "slow", "kind", "gsp")})
+    print("  scenario:", {k: record["init"][k] for k in ("place", "n", "ending", "nested", "slow", "kind", "gsp", "hc")})
     try:
         for lab in record["path"]:
             name, args = parse_label(lab)
